@@ -6,7 +6,7 @@ import random, json, sys
 from ..harness import coq, impl, scn
 
 pid = 'C11'
-gen_modules = ['tr_pin_inherit', 'tr_pin_contracts', 'tr_contracts', 'tr_rest_decorators']
+gen_modules = ['tr_pin_inherit', 'tr_pin_contracts', 'tr_contracts', 'tr_rest_decorators', 'tr_rest_contractsconst']
 model_targets = ['Sem/ClassModel.v']
 hand_modelled = ['coq/Py/Mro.v (C3 linearisation, validated against CPython here)', 'coq/Sem/ClassModel.v: Inherit._patch on a class table (hand-written; source pinned)']
 explanation = ('Theorem: the registry of a method marked inherit contains its own contracts and, for every class of the MRO owning a contracted same-named method, '
